@@ -300,13 +300,10 @@ def run(an: Analysis, rep):
     rep.rule("R04.5", "docstring rule", 1)
     rep.rule("R04.6", "function kind inference", 4)
     rep.rule("R04.7", "len(args)", 1)
-    r041(an, rep)
-    r042(an, rep)
-    r043(an, rep)
-    r044(an, rep)
-    r045(an, rep)
-    r046(an, rep)
-    r047(an, rep)
+    from .common import purity
+    rep.run(purity, an, rep, "R04.P", ["from_code", "parameters", "args_len"])
+    for fn in (r041, r042, r043, r044, r045, r046, r047):
+        rep.run(fn, an, rep)
 
 
 def r041(an, rep):
